@@ -53,6 +53,8 @@ def run(ctx):
     side_rules_2(ctx)
     side_rules_3(ctx)
     side_rules_4(ctx, cg)
+    # "the service still answers the next request": a task that waits for a lock it holds itself never does (C07.R11)
+    ctx.include("C07", rules=("R11",))
     # ---- side conditions of the reviewed entries (evaluated lazily, once)
     side = RV.SideConditions(ctx)
     n_sites, n_dis, by_rule = check_sites(ctx, D, side, reach, "site")
